@@ -19,6 +19,12 @@ pub fn wcfg() -> SgenCfg {
     SgenCfg { logical: false, node_budget: 14, max_depth: 3, zero_fixed: false, single_named_per_union: true, ..SgenCfg::full() }
 }
 
+/// C08's own profile: also the logical types on int and long, and field defaults, in the generated
+/// writer schema (decimal, uuid and duration across schema changes are not modelled by the reference)
+pub fn wcfg_rich() -> SgenCfg {
+    SgenCfg { logical: true, logical_numeric_only: true, defaults: true, ..wcfg() }
+}
+
 pub struct Pair {
     pub w: Subject,
     pub r: Subject,
@@ -134,9 +140,13 @@ fn branch_picked_by_value(w: &SNode, r: &SNode, wv: &V, got: &V, cx: &refresolve
 pub fn judge(p: &Pair, v: &V) -> Result<&'static str, Verdict> {
     let lv = to_lib(&p.w.node, v, &p.w.env);
     let bytes = refbin::encode_canonical(&p.w.node, v, &p.w.env);
-    let mut cx = refresolve::Ctx { wenv: &p.w.env, renv: &p.r.env, truncated: false };
+    let mut cx = refresolve::Ctx::new(&p.w.env, &p.r.env);
     let alts = refresolve::resolve(&p.w.node, &p.r.node, v, &mut cx, 0);
     let truncated = cx.truncated;
+    // root cause of an "error" verdict of the rules: the classes the library is known to be lenient
+    // about come last, so that another cause is never hidden behind them
+    const KNOWN_LENIENT: [&str; 4] = ["named-type-name-mismatch", "types-do-not-match", "no-reader-union-branch-matches", "fixed-size-or-logical-type-differs"];
+    let why: &'static str = cx.reasons.iter().find(|r| !KNOWN_LENIENT.contains(r)).or_else(|| cx.reasons.iter().next()).copied().unwrap_or("unclassified");
     // route 1: datum reader with reader schema
     let rd = GenericDatumReader::builder(&p.w.schema).reader_schema(&p.r.schema).build().map_err(|e| Verdict { key: "reader-build".into(), msg: format!("{e}") })?;
     let mut s: &[u8] = &bytes;
@@ -190,7 +200,8 @@ pub fn judge(p: &Pair, v: &V) -> Result<&'static str, Verdict> {
                 _ => false,
             }
         }
-        let key = if has_ref(&p.w.node) { "routes-disagree/container-reader-decodes-writer-references-with-reader-definitions" } else { "routes-disagree/datum-reader-vs-container-reader" };
+        let _ = has_ref;
+        let key = "routes-disagree/datum-reader-vs-container-reader";
         return Err(Verdict { key: key.into(), msg: format!("GenericDatumReader with reader schema: {}; Reader with reader schema: {}", show(&r1s), show(&r3)) });
     }
     if truncated {
@@ -204,7 +215,7 @@ pub fn judge(p: &Pair, v: &V) -> Result<&'static str, Verdict> {
                 Ok(g) => g,
                 Err(m) => {
                     if !has_val {
-                        return Err(Verdict { key: "lenient".into(), msg: format!("the rules give no result but a value was returned: {}", short(x)) });
+                        return Err(Verdict { key: format!("lenient/{why}"), msg: format!("the rules give no result but a value was returned: {}", short(x)) });
                     }
                     // Fixed(n, n bytes) with n different from the schema's size can only come from
                     // Value::resolve_fixed(String), the one conversion to fixed without a length check
@@ -219,14 +230,14 @@ pub fn judge(p: &Pair, v: &V) -> Result<&'static str, Verdict> {
                 }
             };
             if !has_val {
-                return Err(Verdict { key: "lenient".into(), msg: format!("the resolution rules give no result (error) but {} was returned", got.to_js().render()) });
+                return Err(Verdict { key: format!("lenient/{why}"), msg: format!("the resolution rules give no result (error: {why}) but {} was returned", got.to_js().render()) });
             }
             if !alts.iter().any(|a| matches!(a, Alt::Val(e) if e.sem_eq(&got))) {
                 // the known leniency also shows where the rules do give a result: the branch of a
                 // reader union is picked by converting the value, not by matching the schemas
-                let cx2 = refresolve::Ctx { wenv: &p.w.env, renv: &p.r.env, truncated: false };
+                let cx2 = refresolve::Ctx::new(&p.w.env, &p.r.env);
                 if branch_picked_by_value(&p.w.node, &p.r.node, v, &got, &cx2, 0) {
-                    return Err(Verdict { key: "lenient".into(), msg: format!("a reader union branch whose schema does not match the writer's schema was chosen because the value converts: read {}", got.to_js().render()) });
+                    return Err(Verdict { key: "lenient/reader-union-branch-picked-by-value".into(), msg: format!("a reader union branch whose schema does not match the writer's schema was chosen because the value converts: read {}", got.to_js().render()) });
                 }
                 let want = alts.iter().find_map(|a| if let Alt::Val(e) = a { Some(e.to_js().render()) } else { None }).unwrap_or_default();
                 return Err(Verdict { key: "wrong-value".into(), msg: format!("read {} but the rules prescribe {}", got.to_js().render(), want) });
@@ -264,6 +275,31 @@ pub fn pair_detail(p: &Pair, v: &V) -> Js {
     ])
 }
 
+fn has_logical(n: &SNode) -> bool {
+    n.logical.is_some()
+        || match &n.ty {
+            SType::Array(i) | SType::Map(i) => has_logical(i),
+            SType::Union(bs) => bs.iter().any(has_logical),
+            SType::Record(_, fs) => fs.iter().any(|f| has_logical(&f.node)),
+            _ => false,
+        }
+}
+
+fn strip_logical(n: &SNode) -> SNode {
+    let mut out = n.clone();
+    if matches!(out.ty, SType::Int | SType::Long) {
+        out.logical = None;
+    }
+    out.ty = match &n.ty {
+        SType::Array(i) => SType::Array(Box::new(strip_logical(i))),
+        SType::Map(i) => SType::Map(Box::new(strip_logical(i))),
+        SType::Union(bs) => SType::Union(bs.iter().map(strip_logical).collect()),
+        SType::Record(nm, fs) => SType::Record(nm.clone(), fs.iter().map(|f| FieldSpec { node: strip_logical(&f.node), ..f.clone() }).collect()),
+        other => other.clone(),
+    };
+    out
+}
+
 pub fn step_tag(steps: &[Step]) -> String {
     let mut names: Vec<String> = steps.iter().map(|s| format!("{}@{}", s.name, s.at)).collect();
     names.sort();
@@ -273,6 +309,11 @@ pub fn step_tag(steps: &[Step]) -> String {
 
 pub fn case_pair(c: &mut Choices, log: &mut CaseLog) -> CaseResult {
     case_pair_cfg(c, log, &wcfg(), "C08")
+}
+
+/// Writer schemas with logical types and field defaults as well.
+pub fn case_pair_rich(c: &mut Choices, log: &mut CaseLog) -> CaseResult {
+    case_pair_cfg(c, log, &wcfg_rich(), "C08")
 }
 
 /// Unions with several record/enum/fixed branches or a map next to a record: the library selects
@@ -305,11 +346,35 @@ fn case_pair_cfg(c: &mut Choices, log: &mut CaseLog, cfg: &SgenCfg, prefix: &str
                     log.sample = Some(pair_detail(&p, &v));
                 }
             }
-            Err(verdict) => {
+            Err(mut verdict) => {
                 if verdict.key == "HARNESS" {
                     return Err(Fail::new("HARNESS/c08", verdict.msg));
                 }
-                let key = if verdict.key.starts_with("routes-disagree/container-reader-decodes") { format!("C08/{}", verdict.key) } else { format!("{prefix}/{}/{}", verdict.key, step_tag(&p.steps)) };
+                // causal re-test: without the logical types in the WRITER schema (same bytes, the
+                // values of int/long based logical types are their ints) the same pair resolves as
+                // prescribed -> the library does not read a logical value through its base type
+                // (the root cause behind C09/unsound/logical-type/*)
+                // ... and the refused value is of a logical type that the reader schema does not have
+                // (with the same logical type on both sides resolution works; a failure there is new)
+                // ... and the reader can have lost the writer's logical type: that takes a step that removes
+                // or retypes a node (with additions and reorderings only, the logical type is still there
+                // on the reader's side and resolution works; a failure there is reported)
+                let reader_may_lack_it = p.steps.iter().any(|st| st.name.starts_with("remove-union-branch") || st.name.starts_with("promote-") || st.name.starts_with("unwrap-union") || st.name.starts_with("narrow-") || st.name.starts_with("incompatible-"));
+                if verdict.key == "spec-result-refused" && has_logical(&p.w.node) && reader_may_lack_it {
+                    if let Ok(w2) = crate::specparse::subject_from_text(&render_text(&strip_logical(&p.w.node))) {
+                        let p2 = Pair { w: w2, r: crate::specparse::subject_from_text(&p.r.text).map_err(|e| Fail::new("HARNESS/c08-reparse", e))?, steps: vec![] };
+                        // (the refusal is gone; whatever else the library then does with the plain
+                        // int/long is judged on pairs without logical types)
+                        let refusal_gone = match judge(&p2, &v) {
+                            Ok(_) => true,
+                            Err(v2) => v2.key != "spec-result-refused" && v2.key != "HARNESS",
+                        };
+                        if refusal_gone {
+                            verdict.key = "logical-value-not-read-through-its-base-type".into();
+                        }
+                    }
+                }
+                let key = format!("{prefix}/{}/{}", verdict.key, step_tag(&p.steps));
                 return Err(Fail::new(key, verdict.msg).with(pair_detail(&p, &v)));
             }
         }
@@ -321,6 +386,7 @@ pub fn dispatch(campaign: &str, c: &mut Choices, log: &mut CaseLog) -> Option<Ca
     match campaign {
         "pairs" => Some(case_pair(c, log)),
         "multi_named" => Some(case_pair_multi_named(c, log)),
+        "pairs_rich" => Some(case_pair_rich(c, log)),
         _ => None,
     }
 }
@@ -338,6 +404,7 @@ pub fn run(mut chk: Check) -> ! {
     let n = chk.scale(300_000, 2_000_000);
     chk.campaign(CampaignCfg::new("pairs", n), case_pair);
     chk.campaign(CampaignCfg::new("multi_named", n / 6), case_pair_multi_named);
+    chk.campaign(CampaignCfg::new("pairs_rich", n / 3), case_pair_rich);
     chk.finish()
 }
 
